@@ -162,4 +162,5 @@ def run(prog, rep, tier, cfg):
                 X.arg_has('K10', 'registry:claims-expiry-candidates', c, 1, ['F:RemoveExpiredClaimsParams.claim_ids'], 'for the requested ids', narrow=False)
     # ---- running totals (amounts, power, datacap) accumulated in loops keep their earlier contributions
     X.accumulator_integrity('K12', 'running-totals', ['fil_actor_miner', 'fil_actor_verifreg'], 'running totals of amounts')
+    X.no_dropped_results('K14', 'results-not-discarded', ['fil_actor_miner', 'fil_actor_verifreg'], 'no Result of a call is discarded')
 
